@@ -10,6 +10,7 @@ import (
 	"grog/internal/dag"
 	"grog/internal/hashing"
 	"grog/internal/label"
+	"grog/internal/maps"
 	"grog/internal/model"
 	"grog/internal/output"
 	"grog/internal/output/handlers"
@@ -44,6 +45,8 @@ type Executor struct {
 	loadOutputsMode  config.LoadOutputsMode
 	targetHasher     *hashing.TargetHasher
 	streamLogsToggle *console.StreamLogsToggle
+	// dependencyLoadLocks serializes the dependants that load (or re-run) the same dependency
+	dependencyLoadLocks *maps.MutexMap
 }
 
 func NewExecutor(
@@ -66,6 +69,8 @@ func NewExecutor(
 		loadOutputsMode:  loadOutputsMode,
 		targetHasher:     hashing.NewTargetHasher(graph),
 		streamLogsToggle: console.NewStreamLogsToggle(streamLogs),
+
+		dependencyLoadLocks: maps.NewMutexMap(),
 	}
 }
 
@@ -461,6 +466,12 @@ func (e *Executor) LoadDependencyOutputs(
 	)
 	for _, dep := range e.graph.GetTargetDependencies(target) {
 		localDep := dep
+		// Several dependants can get here for the same dependency at the same time. Loading it and,
+		// if that fails, re-running it is done under the dependency's own lock: otherwise two dependants
+		// re-run it side by side and one of them reads the outputs while the other one's re-run rewrites them.
+		// (the dependant that waited finds the outputs in place afterwards: OutputsLoaded)
+		e.dependencyLoadLocks.Lock(localDep.Label.String())
+		unlockDependency := func() { _ = e.dependencyLoadLocks.Unlock(localDep.Label.String()) }
 		// Function to re-run a dependency in case we
 		rerunDependency := func() error {
 			binTools, binToolErr := e.getBinToolPaths(localDep)
@@ -481,7 +492,9 @@ func (e *Executor) LoadDependencyOutputs(
 		targetResult, err := e.targetCache.Load(ctx, localDep.ChangeHash)
 		if err != nil {
 			// We cannot even get the target cache: re-run immediately
-			return rerunDependency()
+			rerunError := rerunDependency()
+			unlockDependency()
+			return rerunError
 		}
 
 		progress := worker.NewProgressTracker(
@@ -503,13 +516,16 @@ func (e *Executor) LoadDependencyOutputs(
 			)
 			// In this case we need to also recursively re-load the dependencies of the dependency
 			if recursiveLoadErr := e.LoadDependencyOutputs(ctx, localDep, update); recursiveLoadErr != nil {
+				unlockDependency()
 				return recursiveLoadErr
 			}
 
 			if rerunError := rerunDependency(); rerunError != nil {
+				unlockDependency()
 				return rerunError
 			}
 		}
+		unlockDependency()
 	}
 
 	return nil
